@@ -254,7 +254,58 @@ def discharge(ob, timeout_ms=None):
     for c in ob.pc:
         s.add(c)
     s.add(z3.Not(goal))
-    r = s.check()
+    cli = None
+    if ob.meta.get('prefer') == 'z3-4.8.12' and os.path.exists('/usr/bin/z3'):
+        # portfolio: the older z3 decides some quantified real-arithmetic obligations much faster (and vice versa);
+        # it runs as a separate process while the API solver works; the first definite answer wins
+        f = tempfile.NamedTemporaryFile('w', suffix='.smt2', delete=False)
+        f.write(_smt2(ob.pc, goal))
+        f.close()
+        cli = (subprocess.Popen(['/usr/bin/z3', '-T:90', f.name], stdout=subprocess.PIPE, stderr=subprocess.DEVNULL, text=True), f.name)
+    if cli is None:
+        r = s.check()
+    else:
+        import threading
+        proc, fname = cli
+        s.set('timeout', max(timeout_ms, 40000))
+        box = {}
+        th = threading.Thread(target=lambda: box.__setitem__('r', s.check()))
+        th.start()
+        cli_res = None
+        try:
+            while th.is_alive():
+                if cli_res is None and proc.poll() is not None:
+                    out = proc.stdout.read() or ''
+                    cli_res = (out.strip().splitlines() or ['unknown'])[0].strip()
+                    if cli_res == 'unsat':
+                        try:
+                            s.ctx.interrupt()
+                        except Exception:
+                            pass
+                th.join(0.05)
+            r = box.get('r', z3.unknown)
+            if r != z3.unsat and r != z3.sat:
+                if cli_res is None:
+                    try:
+                        out, _ = proc.communicate(timeout=95)
+                    except subprocess.TimeoutExpired:
+                        proc.kill()
+                        out = ''
+                    cli_res = (out.strip().splitlines() or ['unknown'])[0].strip()
+                if cli_res == 'unsat':
+                    ob.status, ob.solver, ob.time = 'unsat', 'z3-4.8.12', time.time() - t0
+                    return ob
+        finally:
+            if proc.poll() is None:
+                proc.kill()
+            try:
+                proc.wait(timeout=5)
+            except Exception:
+                pass
+            try:
+                os.unlink(fname)
+            except OSError:
+                pass
     ob.solver = 'z3-%s' % z3.get_version_string()
     if r == z3.unsat:
         ob.status = 'unsat'
@@ -356,8 +407,22 @@ def make_func(I, contract, inp):
     return mod, node, fn
 
 
-def verify(contract, max_paths=None):
-    """explore all paths of the target under the contract, discharge obligations"""
+_EXPLORE_ONLY = {'on': False}
+
+
+def enumerate_paths(contract):
+    """decision prefixes of all paths (exploration only, nothing is discharged)"""
+    _EXPLORE_ONLY['on'] = True
+    try:
+        r = verify(contract)
+    finally:
+        _EXPLORE_ONLY['on'] = False
+    return r.prefixes
+
+
+def verify(contract, max_paths=None, only_prefix=None, path_index=0):
+    """explore all paths of the target under the contract, discharge obligations
+    (only_prefix: execute exactly that path -- used to spread the paths of one contract over worker processes)"""
     t0 = time.time()
     res = JobResult(contract)
     rel, qual = contract.key()
@@ -375,7 +440,8 @@ def verify(contract, max_paths=None):
         summaries[u.key()] = u
     for k, v in getattr(contract, 'extra_loops', {}).items():
         loopspecs[k] = v
-    work = [[]]
+    work = [[]] if only_prefix is None else [list(only_prefix)]
+    res.prefixes = []
     seen_names = {}
     max_paths = max_paths or contract.max_paths
     canary_done = False
@@ -440,10 +506,14 @@ def verify(contract, max_paths=None):
                     kind = 'lemma' if nm.startswith('lemma:') else 'post'
                     ctx.prove(nm, f, kind)
                     ob = ctx.obligations[-1]
+                    if _EXPLORE_ONLY['on']:
+                        continue
                     try:
                         ob.meta['small'] = contract.small(inp)
                     except Exception:
                         pass
+                    if getattr(contract, 'prefer_solver', None):
+                        ob.meta['prefer'] = contract.prefer_solver
                     discharge(ob)
                     ob.meta.pop('small', None)
                     if is_sym(f) and ob.status == 'unsat':
@@ -462,8 +532,12 @@ def verify(contract, max_paths=None):
         except Exception as e:          # engine bug: never a verdict
             res.errors.append('engine error: %s\n%s' % (e, traceback.format_exc(limit=6)))
         res.paths += 1
-        for alt in ctx.alts:
-            work.append(alt)
+        res.prefixes.append(list(ctx.trace))
+        if only_prefix is None:
+            for alt in ctx.alts:
+                work.append(alt)
+        if _EXPLORE_ONLY['on']:
+            continue
         res.trusted |= ctx.trusted
         res.inlined |= ctx.inlined
         res.havocked |= set(ctx.havocked)
@@ -478,7 +552,7 @@ def verify(contract, max_paths=None):
             base = '%s/%s/%s' % (contract.prop, contract.short(), ob.name)
             k = seen_names.get(base, 0)
             seen_names[base] = k + 1
-            oname = '%s@path%d' % (base, k)
+            oname = '%s@path%d' % (base, k + path_index)
             if ob.status is None:
                 try:
                     sm = contract.small(inp) if inp is not None else None
@@ -486,6 +560,8 @@ def verify(contract, max_paths=None):
                     sm = None
                 if sm is not None:
                     ob.meta['small'] = sm
+                if getattr(contract, 'prefer_solver', None):
+                    ob.meta['prefer'] = contract.prefer_solver
                 discharge(ob)
                 ob.meta.pop('small', None)
             d = dict(name=oname, kind=ob.kind, status=ob.status, solver=ob.solver,
